@@ -30,3 +30,11 @@ func simOrderAnalysisResults(results []index.Document) {
 		return results[i].ID() < results[j].ID()
 	})
 }
+
+// SimEligibleForRemoval returns the epochs whose snapshots are queued for
+// removal from the metadata store at the purger's next pass (a copy).
+func (s *Scorch) SimEligibleForRemoval() []uint64 {
+	s.rootLock.RLock()
+	defer s.rootLock.RUnlock()
+	return append([]uint64(nil), s.eligibleForRemoval...)
+}
